@@ -20,3 +20,48 @@ claim("C16", "property-based testing with a canonical re-indenter oracle built f
 claim("C20", "property-based generation of documents with one injected syntax error at a known byte offset; oracle = newline count before that offset",
       "Generated search: documents rendered with drawn newline layouts (LF/CRLF/blank lines/raw newline in strings/prefix text) and one injected error of each line-citing kind at drawn depth; the cited line must equal 1 + newlines before the detecting character recorded by the generator. Conditional property: accepted texts and errors without a line are counted, not judged.",
       TRUST)
+
+MODEL = "Trusted: Go toolchain, rapid v1.3.0, and the reference model written in the harness (heap of sequences/maps with reference semantics, tree-form resolver/writer, typed structural equality). Absence of violations holds only for the generated programs (counts in the evidence file)."
+
+claim("C05", "model-based (stateful) property testing: programs-as-data interpreted against a reference heap of sequences with reference semantics, full-heap comparison after every step",
+      "Generated search over operation sequences with raw arguments mapped relative to the model state (valid and invalid indices/ranges, self-Concat, shared nested containers, growth across capacity boundaries). After every step every container ever created is compared with the model through the public API, and panics must occur exactly when the model says the argument is outside the documented domain.",
+      MODEL)
+claim("C06", "model-based (stateful) property testing: programs-as-data interpreted against a reference heap of string-keyed maps with reference semantics, full-heap comparison after every step",
+      "Generated search over object operation sequences (Set with repeated keys / odd counts / non-string keys, Unset, Merge incl. self, Pluck, typed getter matrix, Contains/KeyOf) with keys from a hostile pool; every container is compared with the model after every step. Where the statement is silent (state after a Set that panics on a late non-string key; identity of nested containers in a Merge result) both behaviours are accepted.",
+      MODEL)
+claim("C07", "property-based testing of Equals against typed structural equality computed on the generator's own trees (one-edit metamorphic pairs, triples)",
+      "Generated search over pairs/triples related by exactly one (or two) known edits at a drawn depth, order permutations, copies and unrelated trees; Equals must agree with the harness's typed structural equality for all ordered pairs, never panic and never modify an operand.",
+      MODEL)
+claim("C08", "property-based testing of Clone: identity-disjointness oracle plus stateful mutation sequences on either side with snapshot comparison of the other side",
+      "Generated search over trees (incl. DAGs) and 1-12 mutations at drawn nodes of original or clone (methods and tree-form writes); after every mutation the other side's snapshot (content bits and container identities) must be unchanged; reachable identity sets must be disjoint.",
+      MODEL)
+claim("C09", "property-based testing with receiver histories (length/capacity conditions), derivation table and later mutations; oracle = top-level slot snapshots of every participant",
+      "Generated search over receiver/argument histories that vary the length/capacity relation, one or two derivations from the full table of deriving operations, and later top-level mutations of any participant (containers, Go slices and maps); every other participant's slot snapshot must be unchanged.",
+      MODEL)
+claim("C10", "property-based testing of tree-form reads against a stepwise resolver over the implementation tree; path corruptions generated from resolvable paths",
+      "Generated search over trees x (resolvable walks, 15 kinds of one-step corruptions, arbitrary strings over the path alphabet); a resolver in the harness using only Get/TypeOf/KeyExists/Count decides the expected outcome. Index spellings that are not canonical decimal but that a lenient integer parser accepts are only checked for panic-freedom (the statement leaves them open).",
+      MODEL)
+claim("C11", "model-based property testing of tree-form writes against a reference writer over a model tree with container identities",
+      "Generated search over trees x sequences of SetTF/UnsetTF with well-formed paths steered through all cells of (container kind x next segment x situation); after every write the whole tree must equal the reference model including which containers are reused (identical) and which are newly created (never seen before).",
+      MODEL)
+claim("C12", "property-based testing over Go dynamic types x insertion entry points against an independent type switch; typed-getter matrix",
+      "Generated search over all supported dynamic types with full ranges and 22 unsupported types, nested inside []any/map[string]any, through 35 entry points; expected kind/value from an independent type switch; Get's Go type, TypeOf, the six typed getters and the stored content are all checked; unsupported values must panic and leave an existing container unchanged.",
+      MODEL)
+claim("C13", "property-based round-trip testing of native conversions plus four-party non-aliasing checks under generated modification sequences",
+      "Generated search over native trees with typed flavours and sized numbers: container content, NativeDict/NativeSlice (reflective walk for plain types, bit-exact content), Dict/Slice (entries == Get); then modifications of container / native export / one-level export / source at any nested node must leave the three other parties unchanged.",
+      MODEL)
+claim("C14", "property-based testing of every typed view against the model subsequence (callback logs, injective tags, non-commutative folds); method table cross-checked by reflection",
+      "Generated search over kind sequences with repetition; every typed and untyped view of lists and objects is compared with the expected subsequence/multiset (order, multiplicity, identity). New view methods in the interface are reported as unclassified.",
+      MODEL)
+claim("C15", "property-based schedule control (gated callbacks released in generated permutations, generated yields, GOMAXPROCS) with the Go race detector as an additional oracle; concurrent read-only operation mixes vs sequential results",
+      "Generated search: the harness owns callback completion order and parallelism; completion-at-return, exactly-once delivery, MapAsync == Map and concurrent-vs-sequential results are checked, and the race detector judges every execution that happened. The Go scheduler's interleavings inside the library are sampled, not enumerated; liveness is checked only through watchdog-free draining (a missing Wait is seen deterministically because callbacks cannot finish before their gate opens).",
+      MODEL + " The race detector only sees executions that occurred. Fallback timers (2-3 s) only prevent the harness from deadlocking on a broken implementation; they never decide a verdict.")
+claim("C17", "property-based testing of Sort/Reverse: ordered + multiset-preserving + idempotent; involution by identity; panic clause",
+      "Generated search over homogeneous lists with duplicates and extremes (both directions checked: ordered and a permutation), Reverse on lists of any kinds by identity, and the panic clause with unchanged list.",
+      MODEL)
+claim("C18", "property-based testing of numeric aggregates against math/big folds (exact class) and rounding-error bounds (general class); exact Min/Max over the full range",
+      "Generated search over numeric lists in four classes; exact equality where every evaluation order gives the same float64, a standard forward error bound otherwise so a legal re-association cannot raise an alarm; the Int* family against wrapping integer folds on lists with interleaved non-ints.",
+      MODEL + " math/big is trusted for exact arithmetic.")
+claim("C19", "property-based testing of identity preservation on user-defined derived types (1-3 embedding levels); fluent method set enumerated from the interfaces by reflection",
+      "Generated search over programs of fluent calls (every method x every branch x every embedding depth appears; unknown fluent methods are reported) and over 14 storage entry points x all retrieval paths; every result must be the identical registered outer value.",
+      MODEL)
